@@ -85,7 +85,8 @@ def generate(rng, focus, tier="quick"):
         ops.append({"k": "q", "api": rng.choice(APIS), "asset": a, "t": instant()})
     cuts = sorted(set(rng.choice(days) if rng.random() < 0.7 else rng.randrange(lo - 1, hi + 1)
                       for _ in range(rng.randrange(1, 4))))
-    cfg = {"use_symbols": rng.random() < 0.5, "cuts": cuts, "perm_seed": rng.randrange(1 << 30)}
+    cfg = {"use_symbols": rng.random() < 0.5, "cuts": cuts, "perm_seed": rng.randrange(1 << 30),
+           "handler_universe": rng.choice([None, None, "empty", "subset", "late"])}
     plan = {"world": NAME, "cfg": cfg, "market": market, "ops": ops}
     if rng.random() < 0.3:
         # a second data source behind the same handler: the handler must return the first non-NaN answer
@@ -111,7 +112,21 @@ def load_source(market, cfg, dirpath, market2=None):
         mk.write_market({"assets": {s: mkt["assets"][s] for s in present}}, d)
         syms = present if cfg.get("use_symbols") else None
         srcs.append(CSVDailyBarDataSource(d, Equity, adjust_prices=mkt["adjust"], csv_symbols=syms))
-    return srcs[0], BacktestDataHandler(None, data_sources=srcs)
+    # the handler's universe argument: prices are a matter of the data, whatever universe object is handed over
+    hu = cfg.get("handler_universe")
+    uni = None
+    if hu:
+        from qstrader.asset.universe.static import StaticUniverse
+        from qstrader.asset.universe.dynamic import DynamicUniverse
+        import pandas as pd
+        ids = sorted("EQ:%s" % s_ for s_ in market["assets"])
+        if hu == "empty":
+            uni = StaticUniverse([])
+        elif hu == "subset":
+            uni = StaticUniverse(ids[:max(1, len(ids) // 2)][:1])
+        else:
+            uni = DynamicUniverse(dict((a, pd.Timestamp("2099-01-01", tz="UTC")) for a in ids))
+    return srcs[0], BacktestDataHandler(uni, data_sources=srcs)
 
 
 def ask(src, handler, api, asset, t):
@@ -172,6 +187,8 @@ def position_class(ref, market, asset, t):
 
 
 def execute(plan, focus, trace=False):
+    from ..core import apply_host_state
+    apply_host_state(plan)
     import random
     ctx = Ctx(focus, trace=trace)
     market = plan["market"]
